@@ -247,7 +247,12 @@ impl Mat4 {
     #[inline]
     #[must_use]
     pub fn to_scale_rotation_translation(&self) -> (Vec3, Quat, Vec3) {
-        let det = self.determinant();
+        // the determinant of the linear part: the 4x4 determinant multiplies the translation into
+        // its minors and overflows (to NaN) for large finite translations
+        let det = self
+            .x_axis
+            .xyz()
+            .dot(self.y_axis.xyz().cross(self.z_axis.xyz()));
         glam_assert!(det != 0.0);
 
         let scale = Vec3::new(
